@@ -31,6 +31,8 @@ def ev(spec, labels, pos):
         return spec[2] + labels[spec[1]]
     if t == 'add':
         return ev(spec[1], labels, pos) + spec[2]
+    if t == 'rsub':
+        return spec[1] - ev(spec[2], labels, pos)       # k - expr: a value that GROWS when labels shrink
     v = ev(spec[1], labels, pos)
     if t == 'hi':
         return rv32.sext(((v + 0x800) >> 12) & 0xfffff, 20)
@@ -51,6 +53,8 @@ def spec_text(spec):
         return '%%position(%s, %d)' % (spec[1], spec[2])
     if t == 'add':
         return '%s + %d' % (spec_text(spec[1]), spec[2])
+    if t == 'rsub':
+        return '%d - %s' % (spec[1], spec_text(spec[2]))
     return '%%%s(%s)' % (t, spec_text(spec[1]))
 
 
@@ -59,6 +63,8 @@ def spec_labels(spec):
         return []
     if spec[0] in ('label', 'offset', 'position'):
         return [spec[1]]
+    if spec[0] == 'rsub':
+        return spec_labels(spec[2])
     return spec_labels(spec[1])
 
 
